@@ -356,6 +356,7 @@ class ModuleInfo:
     functions: Dict[str, FuncInfo] = field(default_factory=dict)
     classes: Dict[str, ClassInfo] = field(default_factory=dict)
     rebinds: Dict[str, ast.AST] = field(default_factory=dict)  # module-level name = expr
+    constants: Dict[str, ast.AST] = field(default_factory=dict)  # module-level NAME = <literal>, bound exactly once
 
 
 # --------------------------------------------------------------------------
@@ -444,6 +445,32 @@ class Program:
                 t = node.targets[0]
                 if isinstance(t, ast.Name):
                     mod.rebinds[t.id] = node.value
+            elif isinstance(node, ast.AnnAssign) and isinstance(node.target, ast.Name) and node.value is not None:
+                mod.rebinds[node.target.id] = node.value
+        # module-level constants: a name bound once, at top level, to a literal (numbers, strings, tuples / dicts of
+        # literals) and never declared global or mutated in the module
+        counts: Dict[str, int] = {}
+        for n_ in ast.walk(mod.tree):
+            if isinstance(n_, ast.Name) and isinstance(n_.ctx, (ast.Store, ast.Del)):
+                counts[n_.id] = counts.get(n_.id, 0) + 1
+            elif isinstance(n_, (ast.Global, ast.Nonlocal)):
+                for x_ in n_.names:
+                    counts[x_] = counts.get(x_, 0) + 2
+            elif isinstance(n_, (ast.Subscript, ast.Attribute)) and isinstance(getattr(n_, "ctx", None), (ast.Store, ast.Del)):
+                b_ = n_
+                while isinstance(b_, (ast.Subscript, ast.Attribute)):
+                    b_ = b_.value
+                if isinstance(b_, ast.Name):
+                    counts[b_.id] = counts.get(b_.id, 0) + 2
+        for nm_, val_ in mod.rebinds.items():
+            if counts.get(nm_, 0) != 1:
+                continue
+            try:
+                lit = ast.literal_eval(val_)
+            except Exception:
+                continue
+            if isinstance(lit, (int, float, complex, str, bytes, tuple, frozenset)) or (isinstance(lit, dict) and lit):
+                mod.constants[nm_] = val_
         # defjvp registrations: @f.defjvp def g(...)
         for fi in list(mod.functions.values()):
             for d in fi.decorators:
